@@ -21,6 +21,8 @@ RULE = ('shapes: plain call chain, recursion, mutual recursion, exceptions caugh
         'two concurrent; non-trivial = at least one span/capture was opened while another invocation of the same function was live, or the '
         'function was left by an exception, or two threads overlapped'
         ' ; deferred actions opened by different events of one frame (method span + line span on every line, two lines, caller + callee, method capture + line span) and a failing completion (delivery closed); a function is entered once per invocation')
+RULE_ADDED = 'rounds 3-5: captured return value compared by text and children; deep_call (tracepoints entered with 3..40 frames left below the recursion limit); shutdown-pending with the agent genuinely started; work abandoned by a thread that switched tracing off, and a later thread with its ident; falsy span objects'
+RULE = RULE + ' ; ' + RULE_ADDED
 ASSUMPTIONS = ['completing a span early but inside the opening invocation is allowed; only captures are required to carry the exit value',
                'capture stages are reached through the LocationAction config (as the unit tests do) since build_trigger does not forward the stage',
                'thread idents are virtual (harness-assigned); reuse of an ident by a later thread is an explored environment choice']
